@@ -31,6 +31,9 @@ class Crash(BaseException):
 
 
 _ENG = None
+BV_BITS = 66
+POW2_BITS = 1101
+FP_LOG = []      # (divisor, comparison, constant) of every `sym_int / const <op> const` evaluated exactly
 
 
 def eng():
@@ -74,6 +77,7 @@ class Engine:
         self.inputs = {}
         self.notes = {}
         self.t0 = None
+        self._fresh = 0
 
     # --- exploration -----------------------------------------------------
     def explore(self, body):
@@ -91,6 +95,7 @@ class Engine:
                 self.inputs = {}
                 self.notes = {}
                 self._decls = []
+                self._fresh = 0
                 self.s.push()
                 try:
                     body(self)
@@ -114,6 +119,10 @@ class Engine:
         finally:
             _ENG = None
         return self
+
+    def fresh_id(self):
+        self._fresh += 1
+        return self._fresh
 
     def _sample(self):
         if self._sat():
@@ -528,7 +537,10 @@ class SymInt:
             return NotImplemented
         if tb(o == 0):
             raise ZeroDivisionError("division by zero")
-        return Rat(self, o)
+        r = Rat(self, o)
+        if isinstance(o, int):
+            r.pure = True
+        return r
 
     def __rtruediv__(self, o):
         if not isinstance(o, (int, SymInt)):
@@ -548,18 +560,91 @@ class SymInt:
     def __rpow__(self, o):
         return o ** concretize(self, "pow exponent")
 
+    def _bv(self, o, f, kind):
+        """Bitwise op on mathematical integers.
+
+        (1) `a & (a-1)` with a >= 1 (the power-of-two idiom) gets a dedicated
+            encoding, exact on zero-ness at any width: r == 0 <=> a is a power of
+            two, otherwise 1 <= r < a (the precise non-zero value is left open; a
+            verdict that depends on it is caught by the replay).
+        (2) otherwise both operands are decomposed into BV_BITS two's-complement
+            bits (Boolean variables, linear sums); exact for |operand| < 2**(BV_BITS-1),
+            side condition checked."""
+        if not isinstance(o, (int, SymInt)):
+            return NotImplemented
+        E = _ENG
+        if E is None:
+            raise Unsupported("bitwise op outside exploration")
+        a, b = self.e, lift(o)
+        if kind == "and":
+            for p, q in ((a, b), (b, a)):
+                if z3.is_true(z3.simplify(q == p - 1)) and not tb(SymBool(p < 1)):
+                    if tb(SymBool(p >= 2 ** POW2_BITS)):
+                        raise Unsupported("power-of-two idiom beyond 2**%d" % POW2_BITS)
+                    k = E.fresh_id()
+                    r = z3.Int("band_%d" % k)
+                    isp = z3.Or([p == 2 ** i for i in range(POW2_BITS)])
+                    E.s.add(z3.If(isp, r == 0, z3.And(r >= 1, r < p)))
+                    return SymInt(r)
+        lim = 2 ** (BV_BITS - 1)
+        for t in (a, b):
+            if tb(SymBool(z3.Or(t >= lim, t < -lim))):
+                raise Unsupported("bitwise operation beyond %d bits" % BV_BITS)
+        k = E.fresh_id()
+
+        def bits(t, tag):
+            bs = [z3.Bool("bit_%d_%s_%d" % (k, tag, i)) for i in range(BV_BITS)]
+            E.s.add(t + z3.If(t < 0, 2 ** BV_BITS, 0) == z3.Sum([z3.If(x, 2 ** i, 0) for i, x in enumerate(bs)]))
+            return bs
+        xa, xb = bits(a, "a"), bits(b, "b")
+        rb = [f(p, q) for p, q in zip(xa, xb)]
+        ur = z3.Sum([z3.If(x, 2 ** i, 0) for i, x in enumerate(rb)])
+        return SymInt(ur - z3.If(rb[-1], 2 ** BV_BITS, 0))
+
     def __and__(self, o):
-        return concretize(self, "&") & (concretize(o, "&") if isinstance(o, SymInt) else o)
+        return self._bv(o, lambda x, y: z3.And(x, y), "and")
 
     __rand__ = __and__
 
+    def __or__(self, o):
+        return self._bv(o, lambda x, y: z3.Or(x, y), "or")
+
+    __ror__ = __or__
+
+    def __xor__(self, o):
+        return self._bv(o, lambda x, y: z3.Xor(x, y), "xor")
+
+    __rxor__ = __xor__
+
+    def __invert__(self):
+        return self._mk(-self.e - 1)
+
+    def bit_length(self):
+        e = self.e
+        a = z3.If(e >= 0, e, -e)
+        if tb(SymBool(a >= 2 ** (BV_BITS - 2))):
+            raise Unsupported("bit_length beyond %d bits" % BV_BITS)
+        return SymInt(z3.Sum([z3.If(a >= 2 ** k, 1, 0) for k in range(BV_BITS - 1)]))
+
+    def bit_count(self):
+        raise Unsupported("bit_count of symbolic int")
+
+    def __getattr__(self, name):
+        if name.startswith("__"):
+            raise AttributeError(name)
+        raise Unsupported("int.%s on symbolic int" % name)
+
     def __lshift__(self, o):
+        if isinstance(o, int) and 0 <= o < 4096:
+            return self * (2 ** o)
         return concretize(self, "<<") << o
 
     def __rlshift__(self, o):
         return o << concretize(self, "<<")
 
     def __rshift__(self, o):
+        if isinstance(o, int) and 0 <= o < 4096:
+            return self // (2 ** o)
         return concretize(self, ">>") >> o
 
     def _cmp(self, o, f):
@@ -689,9 +774,10 @@ class Rat:
     """Exact rational num/den with (usually linear) integer terms; models Python
     true division where only comparisons and *const follow (percentages).
     The IEEE rounding gap is closed separately by lemma L-pct (see DESIGN)."""
-    __slots__ = ("n", "d")
+    __slots__ = ("n", "d", "pure")
 
     def __init__(self, n, d):
+        self.pure = False
         # normalise sign of d to positive
         if isinstance(d, int):
             if d == 0:
@@ -742,26 +828,28 @@ class Rat:
     def __neg__(self):
         return Rat(-self.n, self.d)
 
-    def _cmp(self, o, op):
+    def _cmp(self, o, op, name="?"):
+        if self.pure and isinstance(o, (int, float)) and isinstance(self.d, int):
+            FP_LOG.append((self.d, name, o))
         o = self._c(o)
         return op(self.n * o.d, o.n * self.d)
 
     def __lt__(self, o):
-        return self._cmp(o, lambda a, b: a < b)
+        return self._cmp(o, lambda a, b: a < b, "lt")
 
     def __le__(self, o):
-        return self._cmp(o, lambda a, b: a <= b)
+        return self._cmp(o, lambda a, b: a <= b, "le")
 
     def __gt__(self, o):
-        return self._cmp(o, lambda a, b: a > b)
+        return self._cmp(o, lambda a, b: a > b, "gt")
 
     def __ge__(self, o):
-        return self._cmp(o, lambda a, b: a >= b)
+        return self._cmp(o, lambda a, b: a >= b, "ge")
 
     def __eq__(self, o):
         if not isinstance(o, (Rat, int, SymInt, float)):
             return False
-        return self._cmp(o, lambda a, b: a == b)
+        return self._cmp(o, lambda a, b: a == b, "eq")
 
     def __ne__(self, o):
         return neg(self.__eq__(o))
@@ -809,6 +897,8 @@ def sym_int(x=0, base=None):
 def sym_str(x="", *a):
     if isinstance(x, SymInt):
         return SymIntStr(x)
+    if hasattr(x, "__symlen__") and hasattr(x, "chars"):
+        return x
     if isinstance(x, Rat):
         return "<rat>"
     if a:
